@@ -65,6 +65,13 @@ func c09Run(c *Ctx) {
 	fault := c09Faults[c.K%int64(len(c09Faults))]
 	withHandler := (c.K/int64(len(c09Faults)))%2 == 1
 	d := GenDecl(c.Sub("d"), c09CfgFor(fault))
+	if inHistTail(c, 42000, 1400000) {
+		// a command that ran in an earlier parse must not make a later, incomplete command line run something
+		hc := c09Cfg()
+		hc.PRequired, hc.PPosReq, hc.PPos, hc.PSubOptional, hc.PCmds, hc.MaxDepth = 0, 0, 0, 25, 90, 3
+		histCase(c, GenDecl(c.Sub("dh"), hc), []string{"shorter-chain", "shorter-chain", "none"}, []string{"parse"})
+		return
+	}
 	if fault == "exec-error" {
 		for _, cm := range d.Cmds[1:] {
 			cm.ExecErr = true
@@ -613,11 +620,11 @@ func init() {
 		Cases: func(tier string) int64 {
 			switch tier {
 			case "thorough":
-				return 1400000
+				return 1400000 + 116666 // + history cases
 			case "race":
 				return 0
 			}
-			return 42000
+			return 42000 + 3500 // + history cases
 		},
 		Run:           c09Run,
 		MinNontrivial: 300,
